@@ -188,6 +188,10 @@ def correspond(ctx, corr, model_ok):
     corr.oracle_failures.extend(busy_sender_oracle())
     corr.oracle_failures.extend(slow_connect_oracle())
     corr.count('transport provider slower than the keep-alive period', 3)
+    corr.oracle_failures.extend(late_handler_oracle())
+    corr.count('handler installed after connect is the one told about the timeout', 2)
+    corr.oracle_failures.extend(second_connection_oracle())
+    corr.count('second connection (reconnect from on_close, delayed provider): periodic emission, no false timeout', 3)
     corr.oracle_failures.extend(peer_probes_oracle())
     corr.count('keepalive while a long fragmented frame is being written on a slow link', 3)
     corr.count('server probing on its own without acknowledging', 2)
@@ -269,6 +273,10 @@ def replay(obj):
         return bool(busy_sender_oracle())
     if 'slow_case' in (obj.get('case') or {}):
         return bool(slow_connect_oracle())
+    if 'late_handler_case' in (obj.get('case') or {}):
+        return bool(late_handler_oracle())
+    if 'second_connection_case' in (obj.get('case') or {}):
+        return bool(second_connection_oracle())
     if 'probe_case' in (obj.get('case') or {}):
         return bool(peer_probes_oracle())
     import ast
@@ -463,4 +471,123 @@ def peer_probes_oracle():
         early = [x for x in r['timeouts'] if x <= r['last_probe'] + L]
         if early or r['echoes'] != r['probes'] or not r['timeouts']:
             out.append({'what': 'server-originated KEEPALIVEs: %r' % (r,), 'probe_case': [P, L, every, until, horizon]})
+    return out
+
+
+# (e) the handler the application installs AFTER connecting (set_handler_using_factory) is the one told about the timeout
+def run_late_handler(P_us, L_us):
+    from rsocket.rsocket_client import RSocketClient
+    from rsocket.request_handler import BaseRequestHandler
+    from rsocket.helpers import single_transport_provider
+    loop = sim.new_loop()
+    sim.patch_clock(loop)
+    T = sim.make_transport_class()
+    t = T(lenreq=False)
+    told = {'initial': [], 'late': []}
+
+    def handler(name):
+        class H(BaseRequestHandler):
+            async def on_keepalive_timeout(self, since, rsocket):
+                told[name].append(us(loop.time()))
+        return H
+    box = {}
+    try:
+        def mk():
+            box['c'] = RSocketClient(single_transport_provider(t), handler_factory=handler('initial'),
+                                     keep_alive_period=timedelta(microseconds=P_us), max_lifetime_period=timedelta(microseconds=L_us))
+            asyncio.create_task(box['c'].connect())
+        t0 = us(loop.time())
+        loop.run(mk)
+        loop.settle()
+        loop.run(lambda: box['c'].set_handler_using_factory(handler('late')))
+        loop.run_until((t0 + 3 * L_us + P_us) / US)        # the server never answers
+        return {k: [x - t0 for x in v] for k, v in told.items()}
+    finally:
+        loop.finish()
+
+
+def late_handler_oracle():
+    out = []
+    for P, L in ((500000, 1000000), (300000, 2000000)):
+        r = run_late_handler(P, L)
+        if r['initial'] or not r['late'] or not (L < r['late'][0] <= 2 * L + P):
+            out.append({'what': 'silent server, handler installed after connect (period %d us, lifetime %d us): the replaced handler was told '
+                                'at %s, the installed one at %s (expected: only the installed one, first within two lifetimes)' %
+                                (P, L, r['initial'], r['late']), 'late_handler_case': [P, L]})
+    return out
+
+
+# (f) the SECOND connection of a client (reconnect from on_close, transport provider with a delay): KEEPALIVE every period
+# there too, and no timeout while the server answers
+def run_second_connection(P_us, L_us, provider_delay_us, horizon_us):
+    from rsocket.rsocket_client import RSocketClient
+    from rsocket.request_handler import BaseRequestHandler
+    from rsocket.frame import KeepAliveFrame
+    loop = sim.new_loop()
+    sim.patch_clock(loop)
+    T = sim.make_transport_class()
+    ts = [T(lenreq=True, name='a'), T(lenreq=True, name='b')]
+    touts = []
+
+    async def provider():
+        yield ts[0]
+        await asyncio.sleep(provider_delay_us / US)
+        yield ts[1]
+
+    class H(BaseRequestHandler):
+        async def on_close(self, rsocket, exception=None):
+            await rsocket.reconnect()
+
+        async def on_keepalive_timeout(self, since, rsocket):
+            touts.append(us(loop.time()))
+    box = {}
+    try:
+        def mk():
+            box['c'] = RSocketClient(provider(), handler_factory=H, keep_alive_period=timedelta(microseconds=P_us),
+                                     max_lifetime_period=timedelta(microseconds=L_us))
+            asyncio.create_task(box['c'].connect())
+        t0 = us(loop.time())
+        loop.run(mk)
+        loop.settle()
+        loop.run_until((t0 + P_us // 2) / US)
+        ts[0].inject_eof()
+        loop.settle()
+        stamps = []
+        seen = 0
+        now = us(loop.time())
+        while now < t0 + horizon_us:
+            now += P_us // 10
+            loop.run_until(now / US)
+            while seen < len(ts[1].sent):
+                d = sim.parse_sent(ts[1].sent[seen])
+                seen += 1
+                stamps.append((us(loop.time()) - t0, d['t']))
+                if d['t'] == 'Keepalive' and d.get('respond'):
+                    ka = KeepAliveFrame()          # the server acknowledges every probe at once
+                    ka.flags_respond = False
+                    ts[1].inject_frame(ka.serialize())
+        return {'second': stamps, 'timeouts': [x - t0 for x in touts], 'connected': ts[1].connected}
+    finally:
+        loop.finish()
+
+
+def second_connection_oracle():
+    out = []
+    for P, L, delay in ((500000, 2000000, 50000), (500000, 2000000, 0), (200000, 1000000, 700000)):
+        horizon = 8 * P + delay + P
+        r = run_second_connection(P, L, delay, horizon)
+        kas = [x for x, ty in r['second'] if ty == 'Keepalive']
+        bad = []
+        if not r['connected'] or not r['second'] or r['second'][0][1] != 'Setup':
+            bad.append('second connection not established with SETUP first: %s' % r['second'][:2])
+        else:
+            up = r['second'][0][0]
+            exp = [up + k * P for k in range(1, (horizon - up) // P + 1)]
+            if len(kas) not in (len(exp), len(exp) - 1) or any(abs(a - b) > P // 10 + 1000 for a, b in zip(kas, exp)):
+                bad.append('KEEPALIVEs on the second connection at %s, expected one per period after it came up at %d: %s' % (kas[:6], up, exp[:6]))
+        if r['timeouts']:
+            bad.append('keepalive timeout reported at %s although every probe was acknowledged' % r['timeouts'][:2])
+        if bad:
+            out.append({'what': 'client reconnected from on_close (provider delay %d us, period %d us): %s' % (delay, P, '; '.join(bad)),
+                        'second_connection_case': [P, L, delay]})
     return out
